@@ -46,6 +46,9 @@ claimed = {
  "C12": dict(
    text="Integer-scheme linear transformations in the algebraic slot model from go/ssa: the real lintrans.NewLinearTransformation/Encode/BSGSIndex/FindBestBSGSRatio/GaloisElements and Evaluator.Evaluate/EvaluateMany/EvaluateSequential (MultiplyByDiagMatrix and its BSGS variant, hoisted rotations, ModDown) on a ciphertext and keys whose every coefficient is a free field element, concrete diagonals: phase(out) = Σ_d Embed(diag_d) ⊙ σ_{5^d}(phase(in)) up to key-switch noise, for positive/negative diagonal sets, every BSGS ratio incl. disabled, encoding and ciphertext levels below the maximum; the Galois keys generated for exactly the advertised elements suffice; output level and scale as documented. Dimension 2 x 8. The step to 'matrix-vector product slot-wise' is encoder equivariance (C07/C11). CKKS numeric precision is outside (floating-point encoder).",
    ref="DESIGN.md §6-C12", technique="SSA symbolic execution in the algebraic slot model + SMT (LIA) on the normalised polynomial identities"),
+ "C13": dict(
+   text="Integer-scheme polynomial evaluation in the algebraic slot model from go/ssa: the real Paterson-Stockmeyer evaluator (power basis, baby/giant steps, the scale simulator, relinearisation) runs on a ciphertext (x, 0) whose slots are free field elements; every output slot must be a univariate polynomial in its input slot whose concrete coefficients gamma_k satisfy gamma_k*T^(1-k)*s^k = S*a_k (mod t) for input scale s, requested scale S and the polynomial's coefficients a_k (p applied slot-wise at the target scale), second component zero; levels consumed = ceil(log2(deg+1)), output scale = target scale, too few levels refused; degrees 0..7 with zero leading/trailing coefficients, several levels and scales, polynomial vectors with slot mappings (unmapped slots zero). Natively the same harness decrypts and compares with p(m) mod t. CKKS (Chebyshev basis, composite sign/step/inverse/mod1 circuits) and the scale-invariant tensoring are outside: floating-point coefficients and precision bounds.",
+   ref="DESIGN.md §6-C13", technique="SSA symbolic execution in the algebraic slot model (coefficient extraction of the slot polynomials) + SMT on the residual identities"),
  "C14": dict(
    text="Algebraic slot model of the real collective key-generation protocols (public key, relinearization key both rounds, Galois key) for 1-3 parties with all secrets, errors and CRS polynomials atoms: every party reads the same reference polynomial from equally keyed CRS objects, the aggregate is independent of order/grouping (exact polynomial identity), and the resulting key is a key of the sum of the secrets (checked by using it: encryption+decryption, relinearisation, automorphism under the ideal secret, up to error atoms); mismatched Galois shares are rejected; parameter sets with and without P. The numeric N-times-single-party noise bound and serialization of shares are outside here (C08).",
    ref="DESIGN.md §6-C14", technique="SSA symbolic execution in the algebraic slot model + SMT (LIA) on the normalised identities"),
